@@ -322,6 +322,34 @@ func (c *VCtx) checkAccess(fr *Frame, st *State, l *Loc, write bool, pos token.P
 			c.staticObl(kind, desc, true, "")
 			return
 		}
+		if !p.owner && p.spec.Via != nil {
+			// a record: it belongs to the monitor its link field points to
+			rest := l.Heap[2:]
+			tkey := rest[:strings.LastIndex(rest, ".")]
+			tname := tkey[strings.LastIndex(tkey, ".")+1:]
+			if link := p.spec.Via[tname]; link != "" {
+				var alts []*Term
+				linkHeap := c.heap(st, "F:"+tkey+"."+link, ArrSort(SRef, SRef))
+				wr := true
+				for _, h := range st.held {
+					for _, m := range h.specs {
+						if m.spec == p.spec {
+							alts = append(alts, Eq(Select(linkHeap, l.Base), m.obj))
+							if write && !h.write {
+								wr = false
+							}
+						}
+					}
+				}
+				if len(alts) == 0 || !wr {
+					c.staticObl(kind, desc, false, fmt.Sprintf("record field is guarded by the %s.%s of the %s it belongs to, which is not held here (held: %s)", p.spec.Type, p.spec.Lock, p.spec.Type, heldNames(st)))
+					return
+				}
+				c.prove(kind, desc+": the record belongs ("+link+") to a "+p.spec.Type+" whose lock is held", st.pc, Or(alts...), nil)
+				c.obls[len(c.obls)-1].Props = c.ownProps()
+				return
+			}
+		}
 		for _, h := range st.held {
 			for _, m := range h.specs {
 				if m.spec == p.spec && (!p.owner || m.obj.S == l.Base.S) {
@@ -704,25 +732,45 @@ func (c *VCtx) monitorEntry(fr *Frame, st *State, ct *FuncContract) {
 	// its receiver: the lock is held and the object invariant holds on entry, and must hold again on exit.
 	if lf := ct.Opts["holds"]; lf != "" && fr.fn.Signature.Recv() != nil {
 		recv := c.asTerm(fr.env[fr.fn.Params[0]])
-		stT := deref(fr.fn.Params[0].Type())
-		cur, curT := recv, stT
-		for _, part := range strings.Split(lf, ".") {
-			stt := curT.Underlying().(*types.Struct)
-			found := false
-			for i := 0; i < stt.NumFields(); i++ {
-				if stt.Field(i).Name() == part {
-					cur = c.embedAddr(cur, curT, part, stt.Field(i).Type())
-					curT = stt.Field(i).Type()
-					found = true
-				}
-			}
-			if !found {
-				unsup("opt holds: no field %s", part)
-			}
-		}
+		cur := c.lockByPath(st, recv, deref(fr.fn.Params[0].Type()), lf)
 		c.acquireNoHavoc(fr, st, cur)
 		c.heldAtEntry = cur
+		// csold() in such a helper: the state at its entry (the enclosing critical section is the caller's)
+		fr.csEntry = st.clone()
+		c.lastCSEntry = fr.csEntry
 	}
+}
+
+// lockByPath resolves "f.g.h" starting at object recv of struct type stT: embedded structs by address,
+// pointer fields by their (immutable) value.
+func (c *VCtx) lockByPath(st *State, recv *Term, stT types.Type, path string) *Term {
+	cur, curT := recv, stT
+	for _, part := range strings.Split(path, ".") {
+		stt, ok := curT.Underlying().(*types.Struct)
+		if !ok {
+			unsup("opt holds: %s is not a struct", curT)
+		}
+		found := false
+		for i := 0; i < stt.NumFields(); i++ {
+			if stt.Field(i).Name() != part {
+				continue
+			}
+			found = true
+			ft := stt.Field(i).Type()
+			if pt, isPtr := ft.Underlying().(*types.Pointer); isPtr {
+				h := c.heap(st, fieldHeapName(curT, part), ArrSort(SRef, SRef))
+				cur = TG(SRef, ft, Select(h, cur).S)
+				curT = pt.Elem()
+			} else {
+				cur = c.embedAddr(cur, curT, part, ft)
+				curT = ft
+			}
+		}
+		if !found {
+			unsup("opt holds: no field %s", part)
+		}
+	}
+	return cur
 }
 
 func (c *VCtx) monitorExit(fr *Frame, st *State, ct *FuncContract) {
